@@ -228,6 +228,9 @@ class UnitRunner:
 
     def make_stub(self, key, st):
         def hook(ip_, f, self_val, args, kwargs):
+            if st.get("recursive_only") and not any(fr.func is not None and fr.func.node is f.node for fr in ip_.frames):
+                from .eval_expr import _NOHOOK
+                return _NOHOOK
             local = ip_.bind_args(f, self_val, list(args), dict(kwargs))
             env = dict(ip_.spec_env)
             env.update(local)
